@@ -20,6 +20,8 @@ What is decided how:
     (`C01 build` / `C01 eval`), outside `Stmt`.
 Theorems here (all programs of the structured fragment, all machines, all fuel):
   * `compiled_code_means_what_the_source_says` — see above;
+  * `counted_loop_leaves_no_index`, `completion_keeps_loops` — a terminated counted loop leaves the loop stack
+    exactly as it found it (zero-trip, normal end, `break`); no statement that completes changes its depth;
   * `compileS_length` — the compositional compiler emits exactly `size` opcodes (every jump distance in
     `compileS` is computed from `size`);
   * `no_stray_break` — a statement in a context where `break` is not allowed never evaluates to a travelling
@@ -33,6 +35,7 @@ Theorems here (all programs of the structured fragment, all machines, all fuel):
 import XehModel.Model.Structured
 import XehModel.Model.ParseS
 import XehModel.Proofs.StructSim
+import XehModel.Proofs.StructLoops
 
 namespace Xeh.C01
 open Xeh Xeh.Mach Xeh.Structured
@@ -52,108 +55,6 @@ theorem compileS_length (st : Stmt) : ∀ (bk : BK) (ce : Option Nat), (compileS
   | brk t => intro bk ce; cases bk <;> rfl
   | caseS a ih => intro bk ce; simp [compileS, size, ih]
   | arm tOf tEndof body ih => intro bk ce; simp [compileS, size, ih]; omega
-
-def NoBrk (r : Res) : Prop := ∀ t m, r ≠ .brk t m
-
-theorem ofR_noBrk {α : Type} (r : R α) (tok : Nat) (k : α → Mach → Res) (h : ∀ a m, NoBrk (k a m)) : NoBrk (ofR r tok k) := by
-  unfold ofR
-  split
-  · exact h _ _
-  · intro t m e; cases e
-  · intro t m e; cases e
-
-theorem noBrk_ok (m : Mach) : NoBrk (.ok m) := fun _ _ e => by cases e
-theorem noBrk_timeout : NoBrk .timeout := fun _ _ e => by cases e
-
-/-- neither a statement evaluated where `break` is not allowed, nor the iterations of a counted loop, ever
-    hand a travelling `break` to their surroundings -/
-theorem no_brk_aux (np : String → Option Prog) : ∀ f,
-    (∀ st m r, WFS st false r = true → NoBrk (evalS np f st m)) ∧ (∀ tl a m, NoBrk (doIter np f tl a m)) := by
-  intro f
-  induction f with
-  | zero => exact ⟨fun _ _ _ _ => by simp only [evalS]; exact noBrk_timeout, fun _ _ _ => by simp only [doIter]; exact noBrk_timeout⟩
-  | succ f ih =>
-    obtain ⟨ihE, ihD⟩ := ih
-    refine ⟨fun st m r hw => ?_, fun tl a m => ?_⟩
-    · cases st with
-      | skip => simp only [evalS]; exact noBrk_ok m
-      | op t o => simp only [evalS]; exact ofR_noBrk _ _ _ (fun _ m => noBrk_ok m)
-      | seq a b =>
-        simp only [WFS, Bool.and_eq_true] at hw
-        simp only [evalS]
-        have ha := ihE a m r hw.1
-        split
-        · exact ihE b _ r hw.2
-        · exact ha
-      | ifThen t a =>
-        simp only [WFS] at hw
-        simp only [evalS]
-        exact ofR_noBrk _ _ _ (fun c m => by split; exact ihE a m false hw; exact noBrk_ok m)
-      | ifElse t te a b =>
-        simp only [WFS, Bool.and_eq_true] at hw
-        simp only [evalS]
-        exact ofR_noBrk _ _ _ (fun c m => by split; exact ihE a m false hw.1; exact ihE b m false hw.2)
-      | untilLoop t a =>
-        simp only [WFS] at hw
-        simp only [evalS]
-        have ha := ihE a m false hw
-        split
-        · exact ofR_noBrk _ _ _ (fun c m => by split; exact noBrk_ok m; exact ihE (.untilLoop t a) m r (by simpa [WFS] using hw))
-        · exact ha
-      | whileLoop tw tr c a =>
-        simp only [evalS]
-        have hc : WFS c false false = true := by simp only [WFS, Bool.and_eq_true] at hw; exact hw.1
-        have hcn := ihE c m false hc
-        split
-        · refine ofR_noBrk _ _ _ (fun b m => ?_)
-          split
-          · split
-            · exact ihE (.whileLoop tw tr c a) _ r hw
-            · exact noBrk_ok _
-            · rename_i r1 hne1 hne2
-              intro t2 m2 e2
-              exact hne2 t2 m2 e2
-          · exact noBrk_ok m
-        · exact hcn
-      | repeatLoop tr a =>
-        simp only [evalS]
-        split
-        · exact ihE (.repeatLoop tr a) _ r hw
-        · exact noBrk_ok _
-        · rename_i r1 hne1 hne2
-          intro t2 m2 e2
-          exact hne2 t2 m2 e2
-      | doLoop td tl a =>
-        simp only [evalS]
-        exact ofR_noBrk _ _ _ (fun l m => by split; exact ihD tl a _; exact noBrk_ok m)
-      | brk t => simp [WFS] at hw
-      | caseS a =>
-        simp only [WFS] at hw
-        simp only [evalS]
-        have ha := ihE a m true hw
-        split
-        · exact noBrk_ok _
-        · exact ha
-      | arm tOf tEndof body =>
-        simp only [WFS, Bool.and_eq_true] at hw
-        simp only [evalS]
-        refine ofR_noBrk _ _ _ (fun hit m => ?_)
-        split
-        · have hb := ihE body m false hw.2
-          split
-          · intro t m e; cases e
-          · exact hb
-        · exact noBrk_ok m
-    · simp only [doIter]
-      split
-      · refine ofR_noBrk _ _ _ (fun more m => ?_)
-        split
-        · exact ihD tl a m
-        · exact ofR_noBrk _ _ _ (fun _ m => noBrk_ok m)
-      · exact ofR_noBrk _ _ _ (fun _ m => noBrk_ok m)
-      · rename_i r1 hne1 hne2
-        intro t2 m2 e2
-        exact hne2 t2 m2 e2
 
 /-- a statement in a context where `break` is not allowed never evaluates to a travelling break -/
 theorem no_stray_break (np : String → Option Prog) (f : Nat) (st : Stmt) (m : Mach) (r : Bool)
@@ -239,6 +140,19 @@ theorem endless_until_never_falls_through (np : String → Option Prog) (t t' : 
           exact hne m2 hbody
     · rename_i r hne
       exact hne m' e
+
+/-- **a terminated counted loop leaves no loop index visible to later code**: when `do … loop` completes — after
+    any number of iterations, zero included, normally or by `break` — the loop stack is exactly the one before
+    the loop (so `I` afterwards sees what it saw before; with the main theorem below the same holds of the VM,
+    whose loop stack agrees with the evaluator's) -/
+theorem counted_loop_leaves_no_index (np : String → Option Prog) (f : Nat) (td tl : Nat) (a : Stmt) (m m' : Mach)
+    (hw : WFS a true false = true) (h : evalS np f (.doLoop td tl a) m = .ok m') : m'.loops = m.loops :=
+  Structured.counted_loop_leaves_no_index np f td tl a m m' hw h
+
+/-- every statement that completes leaves the loop stack as deep as it found it -/
+theorem completion_keeps_loops (np : String → Option Prog) (f : Nat) (st : Stmt) (m m' : Mach) (k r : Bool)
+    (hw : WFS st k r = true) (h : evalS np f st m = .ok m') : m'.loops.length = m.loops.length :=
+  (Structured.completion_keeps_loops np f st m m' k r hw h).1
 
 /-! ### the compiled code means what the source says -/
 
